@@ -32,18 +32,18 @@ d1 = sh("cd %s && timeout 300 /venv/bin/python %s/demo.py" % (wt, out), env=env)
 meta["demo_with_change_exit"] = d1.returncode
 meta["demo_with_change_tail"] = d1.stdout[-300:]
 if not nosuite:
-    s = sh("cd %s && flock /tmp/repo-suite.lock timeout 1500 /venv/bin/python -m pytest -q -p no:cacheprovider --timeout=900 --continue-on-collection-errors 2>&1 | tail -4" % wt)
+    s = sh("cd %s && flock /tmp/repo-suite.lock timeout 1500 /venv/bin/python -m pytest -q -p no:cacheprovider --timeout=900 --continue-on-collection-errors 2>&1 | tail -8" % wt)
     m = re.search(r"(\d+) failed, (\d+) passed", s.stdout)
     meta["suite_with_change"] = s.stdout.strip().split("\n")[-1]
     meta["suite_ok"] = bool(m and m.group(1) == "1" and m.group(2) == "116" and "test_going_to_graph" in s.stdout)
-sh("git -C /repo worktree remove --force %s" % wt)
-# run the checks against /repo with the patch applied, then undo
-assert sh("git -C /repo status --porcelain").stdout.strip() == "", "repo dirty"
-sh("git -C /repo apply %s/patch.diff" % out)
+# run the checks against a worktree of /repo with the patch applied (VERIF_REPO), so that /repo itself stays untouched while
+# other work is going on; equivalent to `git -C /repo apply` + run + `git -C /repo checkout -- .`
+sh("git -C %s checkout -- ." % wt)
+sh("git -C %s apply %s/patch.diff" % (wt, out))
 res = {}
 try:
     for c in checks:
-        r = sh("cd /verif && timeout 1500 ./check %s" % c)
+        r = sh("cd /verif && VERIF_REPO=%s timeout 1500 ./check %s" % (wt, c))
         lines = [l for l in r.stdout.split("\n") if l.startswith(("VIOLATION", "KNOWN-FINDING", "CHECK-ERROR", "OBLIGATION-BROKEN"))]
         res[c] = {"exit": r.returncode, "lines": [l[:400] for l in lines[:6]]}
         for l in lines:
@@ -51,7 +51,7 @@ try:
             if m and os.path.exists(m.group(1)):
                 res[c].setdefault("replays", []).append(json.load(open(m.group(1))).get("what", "")[:200])
 finally:
-    sh("git -C /repo checkout -- .")
+    sh("git -C /repo worktree remove --force %s" % wt)
 meta["check_results"] = res
 meta["caught_by"] = [c for c in checks if res.get(c, {}).get("exit") == 1]
 json.dump(meta, open(os.path.join(out, "meta.json"), "w"), indent=1)
